@@ -40,12 +40,13 @@ GEN_MODULES: List[str] = ["C14Types"]
 MANIFEST = {
     "design_ref": "§5 C14",
     "text": ("Lean theorems over the executable tree-level model of server.py's HTTP side composed with the client "
-             "(Props/C14.lean): client_sees_definition (for every well-formed service definition the client's parse of the "
-             "served SCPD equals the definition: type, evented flag, typed bounds incl. one-sided ranges, allowed set, default, "
-             "actions with argument bindings), call_roundtrip (every valid call reaches the handler with the same typed values "
-             "and returns the handler's typed results), handler_error_propagates (same UPnP code), "
-             "bad_request_never_unhandled / invalid_request_rejected (for every request tree and header: SOAP fault or 4xx, "
-             "never an escaping exception). The model is tied to the code by a generated type table (const.py) and a "
+             "(Props/C14.lean): client_sees_variable and client_sees_definition_partial (for every well-formed variable / "
+             "state table the client's parse of the served SCPD equals the definition: type, evented flag, typed bounds incl. "
+             "one-sided ranges, allowed set, default; the action list and device tree are judged at run time, not proved), "
+             "call_roundtrip (every valid call reaches the handler with the same typed values and returns the handler's typed "
+             "results), handler_error_propagates (same UPnP code), bad_request_never_unhandled / invalid_request_rejected / "
+             "invalid_request_judged (for every request tree and header: SOAP fault or 4xx, never an escaping exception), "
+             "gen_types_ok over the generated type table. The model is tied to the code by that table (const.py) and a "
              "differential check of served documents, client model, handler inputs, results and statuses; the Lean judge "
              "is evaluated on the implementation's observations."),
     "note": ("Trusted: Lean kernel + standard axioms; XML text<->tree (ElementTree/expat, escaping), aiohttp routing and "
